@@ -71,7 +71,7 @@ def strat_case(draw, tier):
     ws = [draw(_f(-3.0, 3.0)) for _ in range(nd + n_j + 2)]
     us = [draw(st.floats(0.01, 0.99)) for _ in range(n_j)]
     return {"sim": sim, "mode": mode, "dates": dates, "counts": counts, "fracs": fracs, "jumps": jumps, "ws": ws,
-            "us": us, "eps_rel": draw(st.sampled_from([2.0, 0.9, 0.35, 0.11])), "sigma": draw(_f(0.05, 0.4)),
+            "us": us, "eps_rel": draw(st.sampled_from([2.0, 0.9, 0.35, 0.11, 0.5, 0.2, 0.1])), "sigma": draw(_f(0.05, 0.4)),
             # a pure-jump model of infinite variation: the chain's diffusion part is then the small-jump substitute only
             "infinite_variation": draw(st.sampled_from([False, False, True])),
             "method": draw(st.sampled_from(["INVERSION", "BINARYSEARCHTREEADAPTED1D", "ALIAS", "BINARYSEARCHTREE"])),
